@@ -226,6 +226,16 @@ class Check:
                 self.broken_tie(f'theorem {t}', f'axioms {ax}' if ax is not None else 'not found / did not check', kind='broken-obligation')
             elif not good and not any(b['kind'] == 'broken-obligation' for b in self.broken):
                 self.broken_tie(f'theorem {t}', 'did not check', kind='broken-obligation')
+        if ok and self.tier == 'thorough':
+            # independent re-check of the compiled property modules by the toolchain's external kernel replayer
+            t0 = time.time()
+            try:
+                p = subprocess.run(['lake', 'env', 'leanchecker'] + list(targets), cwd=LEAN, capture_output=True, text=True, timeout=3600)
+                self.extra['leanchecker'] = {'modules': list(targets), 'rc': p.returncode, 'wall_s': round(time.time() - t0, 1)}
+                if p.returncode != 0:
+                    self.broken_tie('leanchecker replay of ' + ' '.join(targets), (p.stdout + p.stderr)[-500:], kind='broken-obligation')
+            except Exception as ex:
+                self.extra['leanchecker'] = {'modules': list(targets), 'error': f'{type(ex).__name__}: {ex}'[:200]}
         return ok
 
     # ---- verdict
